@@ -9,6 +9,7 @@ from typing import List, Tuple
 from pyopenapi_gen import IRSchema
 from pyopenapi_gen.context.render_context import RenderContext
 from pyopenapi_gen.core.utils import NameSanitizer
+from pyopenapi_gen.core.writers.documentation_writer import escape_docstring_text
 from pyopenapi_gen.core.writers.python_construct_renderer import PythonConstructRenderer
 from pyopenapi_gen.helpers.type_resolution.finalizer import TypeFinalizer
 from pyopenapi_gen.types.services.type_service import UnifiedTypeService
@@ -123,7 +124,7 @@ class DataclassGenerator:
 @dataclass
 class {class_name}:
     """
-    {description}
+    {escape_docstring_text(description)}
 
     This class wraps arbitrary JSON objects with no defined schema,
     preserving all data during serialization/deserialization.
@@ -225,7 +226,7 @@ converter.register_unstructure_hook({class_name}, _unstructure_{class_name.lower
 @dataclass
 class {class_name}:
     """
-    {description}
+    {escape_docstring_text(description)}
 
     This class wraps a dictionary with typed values, providing dict-like access
     while ensuring values are properly deserialized into {value_type} instances.
